@@ -20,17 +20,20 @@ EXTENDS Naturals, Sequences, FiniteSets, TLC, Json
 
 Names == {"ns:pkg", "ns:sub:pkg"}
 Versions == {"none", "1.2.3", "1.2.3-rc.1", "1.2.3+b.7"}
-Overrides == {"none", "file", "dangling"}
+\* "textfile": the override points to an existing `.wasm` file whose CONTENTS are text
+Overrides == {"none", "file", "textfile", "dangling"}
 
+\* wasmtext: the `.wasm` file at the candidate path holds text (it starts with a parenthesis).  The
+\* format is decided by the extension alone, never by the contents: such a file is returned as it is.
 Rows ==
-  [name : Names, ver : Versions, dir : BOOLEAN, wasm : BOOLEAN, wat : BOOLEAN, decoy : BOOLEAN,
-   ovr : Overrides, strict : BOOLEAN, watfeature : BOOLEAN]
+  {r \in [name : Names, ver : Versions, dir : BOOLEAN, wasm : BOOLEAN, wasmtext : BOOLEAN, wat : BOOLEAN,
+          decoy : BOOLEAN, ovr : Overrides, strict : BOOLEAN, watfeature : BOOLEAN] : r.wasmtext => r.wasm}
 
 \* the documented outcome of resolving the key of row r
 Lookup(r) ==
   IF r.ovr # "none" /\ r.ver = "none"
   THEN \* an explicit --dep applies to unversioned references only and must exist
-       IF r.ovr = "file" THEN "loaded:override" ELSE "failure"
+       IF r.ovr \in {"file", "textfile"} THEN "loaded:override" ELSE "failure"
   ELSE IF r.dir THEN "loaded:dir"                                   \* a directory is a WIT package
   ELSE IF r.watfeature /\ r.wat THEN "loaded:wat"                   \* .wat preferred when text support is on
   ELSE IF r.wasm THEN "loaded:wasm"
@@ -48,8 +51,17 @@ TableLaws ==
   /\ row.ver # "none" => Lookup(row) = Lookup([row EXCEPT !.ovr = "none"])
   /\ Lookup(row) \notin {"unknown", "skipped"} => Lookup(row) = Lookup([row EXCEPT !.strict = ~row.strict])
   /\ ~row.watfeature => Lookup(row) # "loaded:wat"
+  \* what a `.wasm` file holds never changes where the package comes from
+  /\ row.wasm => Lookup(row) = Lookup([row EXCEPT !.wasmtext = ~row.wasmtext])
+  /\ row.ovr = "file" => Lookup(row) = Lookup([row EXCEPT !.ovr = "textfile"])
 
-EmitReplay == PrintT(<<"REPLAY", ToJson([row |-> row, expect |-> Lookup(row)])>>)
+\* what is returned: the file's bytes as they are, or the encoding of the WIT / WAT that was found
+Bytes(r) ==
+  LET w == Lookup(r)
+  IN IF w \in {"loaded:dir", "loaded:wat"} THEN "encoded"
+     ELSE IF w \in {"loaded:wasm", "loaded:override"} THEN "as-is" ELSE "-"
+
+EmitReplay == PrintT(<<"REPLAY", ToJson([row |-> row, expect |-> Lookup(row), bytes |-> Bytes(row)])>>)
 
 (***************************************************************************)
 (* Requests with several keys: every key is looked up on its own.  In the  *)
